@@ -345,3 +345,53 @@ pub mod fpoint {
         p.x_() > 0
     }
 }
+
+/// custom functions for `Cow<'a, [f32]>` (lifetime-generic, so that declarations `W<'a>(Cow<'a, [f32]>)` can use them)
+pub mod fcow {
+    use super::CustomErr;
+    use std::borrow::Cow;
+    /// idempotent
+    pub fn s_abs_all<'a>(v: Cow<'a, [f32]>) -> Cow<'a, [f32]> {
+        if v.iter().all(|x| !x.is_sign_negative()) {
+            v
+        } else {
+            Cow::Owned(v.iter().map(|x| x.abs()).collect())
+        }
+    }
+    /// idempotent
+    pub fn s_take3<'a>(v: Cow<'a, [f32]>) -> Cow<'a, [f32]> {
+        match v {
+            Cow::Borrowed(b) => Cow::Borrowed(&b[..b.len().min(3)]),
+            Cow::Owned(mut o) => {
+                o.truncate(3);
+                Cow::Owned(o)
+            }
+        }
+    }
+    /// not idempotent
+    pub fn s_push0<'a>(v: Cow<'a, [f32]>) -> Cow<'a, [f32]> {
+        let mut o = v.into_owned();
+        o.push(0.0);
+        Cow::Owned(o)
+    }
+    pub fn p_nonempty(v: &Cow<'_, [f32]>) -> bool {
+        !v.is_empty()
+    }
+    pub fn p_short(v: &Cow<'_, [f32]>) -> bool {
+        v.len() <= 3
+    }
+    pub fn p_no_nan(v: &Cow<'_, [f32]>) -> bool {
+        v.iter().all(|x| !x.is_nan())
+    }
+    pub fn v_sum(v: &Cow<'_, [f32]>) -> Result<(), CustomErr> {
+        let s: f64 = v.iter().map(|x| *x as f64).sum();
+        if s > 100.0 {
+            Err(CustomErr { code: v.len() as i64 })
+        } else {
+            Ok(())
+        }
+    }
+    pub fn m_v_sum(v: &Cow<'_, [f32]>) -> Result<(), i64> {
+        v_sum(v).map_err(|e| e.code)
+    }
+}
